@@ -27,13 +27,11 @@ enum K02Dec {
     Ok { new_format: bool, type_id: u8, len: K02Len, used: usize },
 }
 fn k02_be(inp: &[u8]) -> u32 {
-    let mut v: u32 = 0;
-    let mut i = 0;
-    while i < inp.len() {
-        v = (v << 8) | inp[i] as u32;
-        i += 1;
+    match inp.len() {
+        1 => inp[0] as u32,
+        2 => ((inp[0] as u32) << 8) | inp[1] as u32,
+        _ => ((inp[0] as u32) << 24) | ((inp[1] as u32) << 16) | ((inp[2] as u32) << 8) | inp[3] as u32,
     }
-    v
 }
 fn rfc9580_4_2(inp: &[u8]) -> K02Dec {
     if inp.len() < 1 {
@@ -81,18 +79,11 @@ fn rfc9580_4_2(inp: &[u8]) -> K02Dec {
     }
 }
 
-/// K02 (C17/C05/C04): `PacketHeader::try_from_reader` agrees with RFC 9580 4.2 on EVERY octet
-/// string of length 0..=6 (a header is at most 6 octets, the function never looks further):
-/// format bit, packet type id, length kind and value, octets consumed; Err exactly when bit 7 is
-/// clear or the header is truncated; no panic (the `unreachable!` arm is unreachable).
-/// Complete: `read_arr` loops fully unwound.
-#[kani::proof]
-#[kani::unwind(7)]
-#[kani::stub(alloc::fmt::format, k02_no_format)]
-fn k02_packet_header_decode_all_6_octet_prefixes() {
-    let bytes: [u8; 6] = kani::any();
-    let n: usize = kani::any();
-    kani::assume(n <= 6); // input shaping: truncated headers are part of the domain
+/// K02 (C17/C05/C04): `PacketHeader::try_from_reader` agrees with RFC 9580 4.2 on the first `n`
+/// octets of `bytes`: format bit, packet type id, length kind and value, octets consumed; Err
+/// exactly when bit 7 is clear or the header is truncated; no panic (the `unreachable!` arm of the
+/// legacy length type is unreachable).
+fn k02_check(bytes: &[u8; 6], n: usize) {
     let mut rd: &[u8] = &bytes[..n];
     let r = PacketHeader::try_from_reader(&mut rd);
     let consumed = n - rd.len();
@@ -118,9 +109,121 @@ fn k02_packet_header_decode_all_6_octet_prefixes() {
             assert!(got == len, "packet length differs from RFC 9580 4.2 / 4.2.1");
         }
     }
-    kani::cover!(n == 6 && bytes[0] == 0xC2 && bytes[1] == 0xFF && r.is_ok());
-    kani::cover!(n == 5 && bytes[0] == 0x8A && r.is_ok()); // legacy, 4-octet length
-    kani::cover!(n == 1 && bytes[0] == 0x8B && r.is_ok()); // legacy, indeterminate
-    kani::cover!(n == 2 && bytes[0] == 0xCB && bytes[1] == 0xE9 && r.is_ok()); // partial
-    kani::cover!(n == 3 && bytes[0] == 0x3F && r.is_err());
+}
+
+/// K02: every 6-octet prefix (a header is at most 6 octets; the function never looks further).
+/// Complete: `read_arr` loops fully unwound over all 2^48 prefixes.
+#[kani::proof]
+#[kani::unwind(7)]
+#[kani::stub(alloc::fmt::format, k02_no_format)]
+fn k02_packet_header_decode_all_6_octet_prefixes() {
+    let bytes: [u8; 6] = kani::any();
+    k02_check(&bytes, 6);
+    kani::cover!(bytes[0] == 0xC2 && bytes[1] == 0xFF); // OpenPGP format, 5-octet length
+    kani::cover!(bytes[0] == 0xC2 && bytes[1] == 0xDF); // OpenPGP format, 2-octet length
+    kani::cover!(bytes[0] == 0xCB && bytes[1] == 0xE9); // OpenPGP format, partial length
+    kani::cover!(bytes[0] == 0x8A); // legacy, 4-octet length
+    kani::cover!(bytes[0] == 0x8B); // legacy, indeterminate
+    kani::cover!(bytes[0] == 0x3F); // bit 7 clear
+}
+
+/// K02: every input of exactly N < 6 octets (truncation => Err, never a shorter header; complete
+/// headers shorter than 6 octets decode as above).  Together: all octet strings of length 0..=5.
+fn k02_short<const N: usize>() {
+    let mut bytes = [0u8; 6];
+    let head: [u8; N] = kani::any();
+    bytes[..N].copy_from_slice(&head);
+    k02_check(&bytes, N);
+    kani::cover!(N == 0 || bytes[0] == 0xC2); // OpenPGP format
+    kani::cover!(N == 0 || bytes[0] == 0x8A); // legacy, 4-octet length: truncated for every N < 5
+    kani::cover!(N == 0 || bytes[0] == 0x8B); // legacy, indeterminate: complete for every N >= 1
+}
+#[kani::proof]
+#[kani::unwind(7)]
+#[kani::stub(alloc::fmt::format, k02_no_format)]
+fn k02_packet_header_decode_len0() {
+    k02_short::<0>();
+}
+#[kani::proof]
+#[kani::unwind(7)]
+#[kani::stub(alloc::fmt::format, k02_no_format)]
+fn k02_packet_header_decode_len1() {
+    k02_short::<1>();
+}
+#[kani::proof]
+#[kani::unwind(7)]
+#[kani::stub(alloc::fmt::format, k02_no_format)]
+fn k02_packet_header_decode_len2() {
+    k02_short::<2>();
+}
+#[kani::proof]
+#[kani::unwind(7)]
+#[kani::stub(alloc::fmt::format, k02_no_format)]
+fn k02_packet_header_decode_len3() {
+    k02_short::<3>();
+}
+#[kani::proof]
+#[kani::unwind(7)]
+#[kani::stub(alloc::fmt::format, k02_no_format)]
+fn k02_packet_header_decode_len4() {
+    k02_short::<4>();
+}
+#[kani::proof]
+#[kani::unwind(7)]
+#[kani::stub(alloc::fmt::format, k02_no_format)]
+fn k02_packet_header_decode_len5() {
+    k02_short::<5>();
+}
+
+/// K02 (C05/C17): every header the parser accepts from a 6-octet prefix is written back by
+/// `to_writer` with exactly `write_len()` octets; for the OpenPGP format and for legacy headers
+/// whose length type is the minimal one for the value, the octets written are the octets parsed
+/// (number consumed and content).
+/// (Known finding U04/R, not re-asserted here: a legacy header with a NON-minimal length type, e.g.
+/// `8A 00 00 00 05`, is written as `8A 05`; `write_len()` agrees with that shorter output.)
+/// Complete over all 2^48 prefixes.
+#[kani::proof]
+#[kani::unwind(7)]
+#[kani::stub(alloc::fmt::format, k02_no_format)]
+fn k02_packet_header_write_back_all_6_octet_prefixes() {
+    let bytes: [u8; 6] = kani::any();
+    let mut rd: &[u8] = &bytes[..];
+    let h = match PacketHeader::try_from_reader(&mut rd) {
+        Ok(h) => h,
+        Err(_) => return,
+    };
+    let consumed = 6 - rd.len();
+    let mut w = Sink::new();
+    let r = h.to_writer(&mut w);
+    assert!(r.is_ok(), "to_writer failed on an infallible sink");
+    assert!(h.write_len() == w.len, "PacketHeader::write_len() != octets written");
+    // minimal legacy length type for the value (RFC 9580 4.2.2: 0 = 1 octet, 1 = 2, 2 = 4)
+    let legacy = bytes[0] & 0x40 == 0;
+    let minimal = if !legacy {
+        true
+    } else {
+        match (bytes[0] & 3, h.packet_length()) {
+            (0, _) | (3, _) => true,
+            (1, PacketLength::Fixed(l)) => l >= 256,
+            (2, PacketLength::Fixed(l)) => l >= 65536,
+            _ => false,
+        }
+    };
+    // OpenPGP-format lengths have non-minimal encodings too (C0 FF 00 00 00 05): the value decides
+    let minimal_new = match (legacy, bytes[1], h.packet_length()) {
+        (false, 192..=223, PacketLength::Fixed(_)) => true, // two-octet values are always >= 192
+        (false, 255, PacketLength::Fixed(l)) => l >= 8384,
+        _ => true,
+    };
+    if minimal && minimal_new {
+        assert!(w.len == consumed, "header written with a different number of octets than parsed");
+        let j: usize = kani::any();
+        if j < consumed {
+            assert!(w.buf[j] == bytes[j], "header octets written differ from the octets parsed");
+        }
+    }
+    kani::cover!(bytes[0] == 0xC2 && bytes[1] == 0xFF && w.len == 6);
+    kani::cover!(bytes[0] == 0x89 && w.len == 3);
+    kani::cover!(bytes[0] == 0xCB && bytes[1] == 0xE9 && w.len == 2);
+    kani::cover!(legacy && !minimal);
 }
